@@ -222,6 +222,14 @@ func cmdConc(args []string) {
 			nruns++
 		}
 		line["repeats"] = reps
+		// ... and on a store that answers exactly what it is asked (map iteration order inside the query matters there)
+		ex := []any{}
+		for k := 0; k < 4; k++ {
+			st := &scriptStore{bal: c.Bal, meta: c.Meta, modes: []string{"exact"}}
+			ex = append(ex, outcomeJ(runParsed(bg, p, copyVars(c.RawVars), st, c.FlagOvd)))
+			nruns++
+		}
+		line["repeats_exact"] = ex
 		// flags: on / off
 		on := runParsed(bg, p, copyVars(c.RawVars), fresh(), true)
 		off := runParsed(bg, p, copyVars(c.RawVars), fresh(), false)
